@@ -288,8 +288,8 @@ func runC02(p *core.Program, r *core.Report) {
 	c02RangeShape(p, r, nk, sites)
 	rangeBuilderRule(p, r)
 	r.Floor("R2.1", 3)
-	r.Floor("R2.2", 9)
-	r.Floor("R2.3", 18*2)
+	r.Floor("R2.2", 7) // 9 fold sites today
+	r.Floor("R2.3", 14*2) // two obligations per rewrite site (18 today); sites may be merged
 	r.Floor("R2.4", 3)
 	r.Floor("R2.5", 3)
 	r.Floor("R2.6", 9)
@@ -322,59 +322,100 @@ func valueReads(info *types.Info, s *eng.RewriteSite, lit ast.Node, kindName str
 // descends — read from the checker function that sets the type of an integer literal and
 // recurses into unary / binary nodes under operator cases. Literals below any other operator
 // keep the type the checker gave them as operands (int).
+// operatorsOfNodeSwitch: in a function with a type switch over the node, the operator strings
+// under which the UnaryNode / BinaryNode clauses act — written as labels of a nested switch or
+// as equality tests of the node's Operator field; also whether an IntegerNode clause exists and
+// whether it calls SetType.
+func operatorsOfNodeSwitch(info *types.Info, nk *eng.NodeKinds, fd *ast.FuncDecl) (ops map[string]bool, hasInt, sets bool) {
+	ops = map[string]bool{}
+	var ts *ast.TypeSwitchStmt
+	for _, st := range fd.Body.List {
+		if t, ok := st.(*ast.TypeSwitchStmt); ok {
+			ts = t
+		}
+	}
+	if ts == nil {
+		return ops, false, false
+	}
+	for _, c := range ts.Body.List {
+		cc := c.(*ast.CaseClause)
+		kind := ""
+		for _, e := range cc.List {
+			if k := nk.KindOfType(info.TypeOf(e)); k != nil {
+				kind = k.Name
+			}
+		}
+		switch kind {
+		case "IntegerNode":
+			hasInt = true
+			ast.Inspect(cc, func(n ast.Node) bool {
+				if call, ok := n.(*ast.CallExpr); ok {
+					if sel, ok := call.Fun.(*ast.SelectorExpr); ok && sel.Sel.Name == "SetType" {
+						sets = true
+					}
+				}
+				return true
+			})
+		case "UnaryNode", "BinaryNode":
+			pre := "binary "
+			if kind == "UnaryNode" {
+				pre = "unary "
+			}
+			ast.Inspect(cc, func(n ast.Node) bool {
+				switch x := n.(type) {
+				case *ast.CaseClause:
+					if x != cc {
+						for _, e := range x.List {
+							if v, ok := constStringOf(info, e); ok {
+								ops[pre+v] = true
+							}
+						}
+					}
+				case *ast.BinaryExpr:
+					if x.Op == token.EQL {
+						for _, side := range [][2]ast.Expr{{x.X, x.Y}, {x.Y, x.X}} {
+							if sel, ok := eng.Unparen(side[0]).(*ast.SelectorExpr); ok && sel.Sel.Name == "Operator" {
+								if v, ok := constStringOf(info, side[1]); ok {
+									ops[pre+v] = true
+								}
+							}
+						}
+					}
+				}
+				return true
+			})
+		}
+	}
+	return ops, hasInt, sets
+}
+
 func retypableOperators(p *core.Program, nk *eng.NodeKinds) (map[string]bool, string) {
 	info := p.Pkg("checker").TypesInfo
 	for _, fd := range p.FuncDecls("checker") {
 		if fd.Body == nil {
 			continue
 		}
-		var ts *ast.TypeSwitchStmt
-		for _, st := range fd.Body.List {
-			if t, ok := st.(*ast.TypeSwitchStmt); ok {
-				ts = t
-			}
-		}
-		if ts == nil {
+		ops, _, sets := operatorsOfNodeSwitch(info, nk, fd)
+		if !sets {
 			continue
 		}
-		sets := false
-		ops := map[string]bool{}
-		for _, c := range ts.Body.List {
-			cc := c.(*ast.CaseClause)
-			kind := ""
-			for _, e := range cc.List {
-				if k := nk.KindOfType(info.TypeOf(e)); k != nil {
-					kind = k.Name
-				}
-			}
-			switch kind {
-			case "IntegerNode":
-				ast.Inspect(cc, func(n ast.Node) bool {
-					if call, ok := n.(*ast.CallExpr); ok {
-						if sel, ok := call.Fun.(*ast.SelectorExpr); ok && sel.Sel.Name == "SetType" {
-							sets = true
-						}
-					}
-					return true
-				})
-			case "UnaryNode", "BinaryNode":
-				pre := "binary "
-				if kind == "UnaryNode" {
-					pre = "unary "
-				}
-				ast.Inspect(cc, func(n ast.Node) bool {
-					if in, ok := n.(*ast.CaseClause); ok && in != cc {
-						for _, e := range in.List {
-							if v, ok := constStringOf(info, e); ok {
-								ops[pre+v] = true
+		if len(ops) == 0 && len(fd.Body.List) > 0 {
+			// the operator test is delegated: `if !pred(node) { return }` guards the whole body
+			if is, ok := fd.Body.List[0].(*ast.IfStmt); ok && is.Else == nil && is.Init == nil && blockLeaves(is.Body) {
+				for _, d := range eng.Disjuncts(is.Cond, false) {
+					if u, ok := d.(*ast.UnaryExpr); ok && u.Op == token.NOT {
+						if c, ok := eng.Unparen(u.X).(*ast.CallExpr); ok {
+							if fn := eng.CalleeOf(info, c); fn != nil {
+								if _, pfd := p.DeclOf(fn); pfd != nil && pfd.Body != nil {
+									ops, _, _ = operatorsOfNodeSwitch(info, nk, pfd)
+								}
 							}
 						}
 					}
-					return true
-				})
+				}
 			}
 		}
-		if sets && len(ops) > 0 {
+		if len(ops) > 0 {
 			return ops, core.FuncName("checker", fd)
 		}
 	}
@@ -616,14 +657,26 @@ func c02Errors(p *core.Program, r *core.Report) {
 	// the circumstances of the error are those of their call sites
 	ctors := map[*types.Func]bool{}
 	for _, fd := range p.FuncDecls("optimizer") {
-		if fd.Body == nil || fd.Recv != nil || len(fd.Body.List) != 1 {
+		if fd.Body == nil || len(fd.Body.List) != 1 || fd.Name.Name == "Enter" || fd.Name.Name == "Exit" {
 			continue
 		}
-		rs, ok := fd.Body.List[0].(*ast.ReturnStmt)
-		if !ok || len(rs.Results) != 1 {
+		// `return <error>` or `<receiver>.err = <error>` (a recorder of that one error)
+		var e ast.Expr
+		switch st := fd.Body.List[0].(type) {
+		case *ast.ReturnStmt:
+			if len(st.Results) == 1 {
+				e = eng.Unparen(st.Results[0])
+			}
+		case *ast.AssignStmt:
+			if len(st.Lhs) == 1 && len(st.Rhs) == 1 {
+				if _, isSel := st.Lhs[0].(*ast.SelectorExpr); isSel {
+					e = eng.Unparen(st.Rhs[0])
+				}
+			}
+		}
+		if e == nil {
 			continue
 		}
-		e := eng.Unparen(rs.Results[0])
 		if u, ok := e.(*ast.UnaryExpr); ok && u.Op == token.AND {
 			e = eng.Unparen(u.X)
 		}
@@ -725,17 +778,69 @@ func c02Errors(p *core.Program, r *core.Report) {
 	// Optimize returns only pass-recorded errors or nil
 	if fd := p.FuncDecl("optimizer", "", "Optimize"); fd != nil {
 		i := 0
+		// a returned error is nil, an error recorded by a pass (a field), or what a helper of
+		// the package returned, whose own returns are of these kinds
+		var okReturns func(f *ast.FuncDecl, depth int) (bool, string)
+		okReturns = func(f *ast.FuncDecl, depth int) (bool, string) {
+			good, bad := true, ""
+			ld := eng.SingleDefs(info, f.Body)
+			ast.Inspect(f.Body, func(nd ast.Node) bool {
+				if _, isLit := nd.(*ast.FuncLit); isLit {
+					return false
+				}
+				rs, ok := nd.(*ast.ReturnStmt)
+				if !ok || len(rs.Results) == 0 {
+					return true
+				}
+				e := eng.Unparen(rs.Results[len(rs.Results)-1])
+				if isNilIdent(info, e) {
+					return true
+				}
+				if _, isSel := e.(*ast.SelectorExpr); isSel {
+					return true
+				}
+				// err := helper(…)  /  if err := helper(…); err != nil { return err }
+				src := ld.Resolve(e)
+				if id, isID := e.(*ast.Ident); isID && src == ast.Expr(id) {
+					// not single-definition: take the assignments of the variable in this function
+					ast.Inspect(f.Body, func(m ast.Node) bool {
+						if as, ok := m.(*ast.AssignStmt); ok && len(as.Lhs) == 1 && len(as.Rhs) == 1 {
+							if lid, ok := as.Lhs[0].(*ast.Ident); ok && objOf(info, lid) == objOf(info, id) {
+								src = as.Rhs[0]
+							}
+						}
+						return true
+					})
+				}
+				if c, isCall := eng.Unparen(src).(*ast.CallExpr); isCall && depth < 2 {
+					if fn := eng.CalleeOf(info, c); fn != nil && fn.Pkg() == p.Pkg("optimizer").Types {
+						if _, hfd := p.DeclOf(fn); hfd != nil && hfd.Body != nil {
+							if ok, why := okReturns(hfd, depth+1); ok {
+								return true
+							} else {
+								good, bad = false, why
+								return true
+							}
+						}
+					}
+				}
+				good, bad = false, eng.ExprStr(e)
+				return true
+			})
+			return good, bad
+		}
 		ast.Inspect(fd.Body, func(nd ast.Node) bool {
 			rs, ok := nd.(*ast.ReturnStmt)
 			if !ok || len(rs.Results) != 1 {
 				return true
 			}
 			i++
-			e := eng.Unparen(rs.Results[0])
-			_, isSel := e.(*ast.SelectorExpr)
-			r.Check(isNilIdent(info, e) || isSel, "R2.4", fmt.Sprintf("optimizer.Optimize/return#%d", i), p.Pos(rs.Pos()), "returns nil or an error recorded by a pass", "Optimize returns `"+eng.ExprStr(e)+"`, an error that no pass recorded")
 			return true
 		})
+		okAll, why := okReturns(fd, 0)
+		for k := 1; k <= i; k++ {
+			r.Check(okAll, "R2.4", fmt.Sprintf("optimizer.Optimize/return#%d", k), p.Pos(fd.Pos()), "returns nil or an error recorded by a pass", "Optimize returns `"+why+"`, an error that no pass recorded")
+		}
 	} else {
 		r.Unk("R2.4", "optimizer.Optimize", "", "not found")
 	}
@@ -756,12 +861,15 @@ func c02Pipeline(p *core.Program, r *core.Report) {
 		r.Unk("R2.5", "expr.Compile/stages", "", "a pipeline stage was not found")
 		return
 	}
-	w := &eng.Walker{Info: info, MaxPaths: 4000}
+	w := &eng.Walker{Info: info, MaxPaths: 4000, Inline: inlineUnexported(p, ""), MaxDepth: 2}
 	paths := flattenPaths(w.Func(compile.Body), 20000)
 	okGate, okOrder, okOff := true, true, true
 	nOpt, nGen := 0, 0
 	why := ""
 	for _, atoms := range paths {
+		if !errFlowFeasible(info, atoms) {
+			continue
+		}
 		optOn := 0 // 1 = `config.Optimize` taken, -1 = not taken
 		sawOpt, sawGen := false, false
 		for _, a := range atoms {
